@@ -116,6 +116,31 @@ Section Proofs.
     destruct (listeners s); [lia|]. rewrite app_nil_r. eexists. reflexivity.
   Qed.
 
+  (* ---------- re-entrant delivery = the outer mutation followed by the nested one ---------- *)
+  Lemma nested_is_two_steps s w1 w2 t1 t2 : (0 < listeners s)%nat ->
+    Model.step_nested W f cached s w1 w2
+    = (let '(s1, ob1) := step s (Mut w1 t1 1) in
+       let '(s2, ob2) := step s1 (Mut w2 t2 1) in
+       (s2, mkObs None (o_getter ob1 + o_getter ob2)%nat (o_events ob1 ++ o_events ob2))).
+  Proof.
+    intros L. unfold Model.step_nested. destruct (listeners s) as [|l] eqn:Ls; [lia|].
+    cbn [Model.step Model.deliver_n Model.deliver world cache listeners]. rewrite Ls.
+    unfold Model.read. cbn [cache world listeners]. destruct cached; cbn [cache world listeners app];
+      rewrite ?Nat.add_0_r; reflexivity.
+  Qed.
+  Lemma nested_inv s w1 w2 : inv (fst (Model.step_nested W f cached s w1 w2)).
+  Proof.
+    unfold Model.step_nested, inv. destruct (listeners s) as [|l]; [cbn; trivial|].
+    unfold Model.read. cbn [cache world listeners]. destruct cached; cbn; trivial.
+  Qed.
+  Lemma nested_announces s w1 w2 : (0 < listeners s)%nat ->
+    exists old1 old2, o_events (snd (Model.step_nested W f cached s w1 w2)) = [(old1, f w1); (old2, f w2)]
+                      /\ (cached = true -> cache (fst (Model.step_nested W f cached s w1 w2)) = Some (f w2)).
+  Proof.
+    intros L. unfold Model.step_nested. destruct (listeners s) as [|l]; [lia|].
+    unfold Model.read. cbn [cache world listeners]. destruct cached; cbn; eexists; eexists; split; try reflexivity; intros; congruence.
+  Qed.
+
   (* ---------- quiet segments: no mutation of a dependency, no copy ---------- *)
   Definition quiet (o : op) : bool :=
     match o with Mut _ t _ => negb t | Copy _ => false | _ => true end.
